@@ -41,6 +41,16 @@ class GroupSym(AbstractValue):
         return self
 
 
+class CoordClass(AbstractValue):
+    """the (unknown) field class of a formal coordinate: only its constants one()/zero() are used"""
+    sort = "class"
+
+    def v_getattr(self, name, it):
+        if name in ("one", "zero"):
+            return lambda: CoordConst(name)
+        raise AnalysisError(f"attribute {name} of the class of a formal coordinate")
+
+
 class CoordOf(AbstractValue):
     sort = "field"
 
@@ -50,7 +60,12 @@ class CoordOf(AbstractValue):
     def v_getattr(self, name, it):
         if name in ("one", "zero"):
             return lambda: CoordConst(name)
+        if name == "__class__":
+            return CoordClass()
         raise AnalysisError(f"attribute {name} of a formal coordinate")
+
+    def v_type(self, it):
+        return CoordClass()
 
     def v_compare(self, op, other, it):
         if isinstance(other, int) and other == 0 and op in ("==", "!="):
